@@ -329,7 +329,7 @@ Lemma step_reparent_inv : forall s o np nn s', Inv s -> guard_reparent s o np nn
     step s (Reparent o np nn) = Some s' -> Inv s'.
 Proof.
   intros s o np nn s' HI [Ho [Hnp [Hnpmod [[oldp [Hopar [Holdcan Hentry]]] [Hnotanc [Hfree [Hcov Hmodpkg]]]]]]] H.
-  cbn [step] in H. unfold reparent in H.
+  cbn [step] in H. unfold reparent, reparent_tail in H.
   unfold remove_tree in H. destruct (subtree s o) as [T|] eqn:ET; [|discriminate].
   destruct (del_walk s T (allobj s)) as [m1|] eqn:Em1; [|discriminate].
   rewrite Hopar in H. rewrite Holdcan in H. cbn [negb] in H. cbv iota in H.
